@@ -91,7 +91,8 @@ fn proc_strategy() -> impl Strategy<Value = Proc> {
         2 => svec(3).prop_map(POp::Args),
         2 => any::<bool>().prop_map(POp::Default),
         1 => Just(POp::WdApp),
-        2 => prop_oneof![Just(".".to_string()), Just(String::new()), Just("/abs/dir".to_string()), nasty_string(8)].prop_map(POp::WdDir),
+        // never the empty string: an empty working directory may legitimately be read as "the app directory"
+        2 => prop_oneof![Just(".".to_string()), Just("/abs/dir".to_string()), nasty_string(8).prop_map(|s| if s.is_empty() { "rel/dir".to_string() } else { s })].prop_map(POp::WdDir),
     ];
     (ptype(), svec(4), proptest::collection::vec(pop, 0..6)).prop_map(|(ty, command, ops)| Proc { ty, command, ops })
 }
@@ -147,7 +148,7 @@ fn doc_strategy() -> impl Strategy<Value = Doc> {
         2 => proptest::collection::vec(("[A-Za-z0-9_-]{1,8}", nasty_string(10)), 0..5).prop_map(Doc::ExecD),
         2 => (
             prop_oneof![Just(".".to_string()), Just("../x".to_string()), Just("docker://example.com/a:1".to_string())],
-            proptest::collection::vec(prop_oneof![Just("libcnb:acme/x".to_string()), Just("../rel/path".to_string()), Just("/abs".to_string()), Just("docker://docker.io/h/e:1.2.3".to_string()), Just("https://e.com/x?y=1#z".to_string()), Just("urn:cnb:registry:a/b".to_string()), Just(String::new())], 0..5),
+            proptest::collection::vec(prop_oneof![Just("libcnb:acme/x".to_string()), Just("../rel/path".to_string()), Just("/abs".to_string()), Just("docker://docker.io/h/e:1.2.3".to_string()), Just("https://e.com/x?y=1#z".to_string()), Just("urn:cnb:registry:a/b".to_string())], 0..5),
             proptest::option::of(any::<bool>()),
         ).prop_map(|(uri, deps, windows)| Doc::Package { uri, deps, windows }),
     ]
